@@ -1217,6 +1217,7 @@ pub fn run(ctx: &mut Ctx) {
         "writer acceptance / rejection index = model writer (insert_key assert + find_shorter assert)".into(),
         "cross-decoding: Lean decodes real sstable files (void/u64/range, uncompressed blocks); real Reader decodes Lean-encoded blocks; block bytes equal".into(),
         "sstable merge and columnar merge = Lean mergeSpec = Lean k-way merge incl. ordinal tables".into(),
+        "BitPacker::write/flush bytes = Lean bitPack (the packer of the block-address store)".into(),
         "block-address store: Lean decodes the bit-packed index of real files (addresses of every block, ordinal → block search); real routing returns the same addresses".into(),
         "tantivy::termdict (fst backend) and columnar dictionary obey the same ordered-map spec".into(),
     ];
@@ -1226,24 +1227,28 @@ pub fn run(ctx: &mut Ctx) {
     }
     let mut rng = ctx.rng.fork();
     other::corpus(ctx);
-    let dicts = ctx.budget(700, 5000);
+    let dicts = ctx.budget(700, 1500);
     for _ in 0..dicts {
         one_dictionary(ctx, &mut rng, 40);
     }
-    let seqs = ctx.budget(1000, 8000);
+    let seqs = ctx.budget(1000, 4000);
     for _ in 0..seqs {
         other::insertion_order(ctx, &mut rng);
     }
-    let merges = ctx.budget(300, 2500);
+    let merges = ctx.budget(300, 1500);
     for _ in 0..merges {
         other::merges(ctx, &mut rng);
     }
-    let fsts = ctx.budget(150, 1200);
+    let fsts = ctx.budget(150, 600);
     for _ in 0..fsts {
         other::fst_termdict(ctx, &mut rng);
     }
-    let cols = ctx.budget(80, 600);
+    let cols = ctx.budget(80, 300);
     for _ in 0..cols {
         other::columnar(ctx, &mut rng);
+    }
+    let packs = ctx.budget(300, 3000);
+    for _ in 0..packs {
+        other::bitpacker(ctx, &mut rng);
     }
 }
